@@ -349,7 +349,9 @@ func ValidateAuthReqRedirectURI(client Client, uri string, responseType oidc.Res
 // ValidateAuthReqRedirectURINative validates the passed redirect_uri and response_type to the registered uris and client type
 func validateAuthReqRedirectURINative(client Client, uri string) error {
 	parsedURL, isLoopback := HTTPLoopbackOrLocalhost(uri)
-	isCustomSchema := !(strings.HasPrefix(uri, "http://") || strings.HasPrefix(uri, "https://"))
+	// schemes are case-insensitive and "http:/host" is still http: decide by the scheme, not by a prefix
+	scheme, _, _ := strings.Cut(uri, ":")
+	isCustomSchema := !(strings.EqualFold(scheme, "http") || strings.EqualFold(scheme, "https"))
 	if err := checkURIAgainstRedirects(client, uri); err == nil {
 		if client.DevMode() {
 			return nil
